@@ -69,6 +69,20 @@ Theorem timeout_advances :
     (forall d, m_armed m' = Some d -> (now < d)%N).
 Proof. exact timeout_advances. Qed.
 
+(** the timer contract with the shell: the shell owns ONE one-shot timer, armed by
+    the last [ArmTimer]; a firing spends it.  So after every [handle_timeout], if a
+    flow remains (the armed deadline is [Some d]) that very call has emitted
+    [ArmTimer d] -- even when nothing was due because the wheel fired early.
+    (Before the fix recorded in known_findings.json this failed: witness
+    corpus/C19/timer_fires_early.case.) *)
+Theorem timeout_rearms_the_shell_timer :
+  forall hash m now,
+    match m_armed (fst (step hash m now ITimeout)) with
+    | Some d => In (None, ArmTimer d) (snd (step hash m now ITimeout))
+    | None => True
+    end.
+Proof. exact timeout_rearms. Qed.
+
 Theorem close_all_leaves_nothing :
   forall hash m now, Inv m ->
     let m' := fst (step hash m now ICloseAll) in
@@ -228,4 +242,11 @@ Example teardown_once_nonvacuous :
   let tr := snd (run ex_hash (mgr_new ex_cfg 2 8) h) in
   m_ninc m = 3%N /\ closes 0 (allouts tr) = 1 /\ closes 1 (allouts tr) = 1 /\ closes 2 (allouts tr) = 1 /\
   closes 3 (allouts tr) = 0.
+Proof. vm_compute. repeat split. Qed.
+
+Example timeout_rearms_nonvacuous :
+  let m := fst (run ex_hash (mgr_new ex_cfg 2 8) ex_hist) in
+  (* fired 50 ms early: nothing is due, both flows remain, the timer is requested again *)
+  slen (m_flows (fst (step ex_hash m 51 ITimeout))) = 2 /\
+  snd (step ex_hash m 51 ITimeout) = [(None, ArmTimer 101%N)].
 Proof. vm_compute. repeat split. Qed.
